@@ -275,7 +275,7 @@ func raceFamily(seed int64, n int) []Scenario {
 	}
 	for i := 0; i < max(1, n/4); i++ {
 		out = append(out, raceCloseScenario(fmt.Sprintf("raceclose%d_%d", seed, i), 12))
-		out = append(out, raceRegistryScenario(fmt.Sprintf("racereg%d_%d", seed, i), 8, 60))
+		out = append(out, raceRegistryScenario(fmt.Sprintf("racereg%d_%d", seed, i), 8, 300))
 	}
 	return out
 }
